@@ -62,6 +62,12 @@ type vncCfg struct {
 	Deadline int   `json:"deadline"` // seconds
 	Len      int   `json:"len"`      // initial length of the honest chain in model units
 	Free     int   `json:"free"`     // 1 = free running: all gates open, Extend delivers its blocks one by one; 2 = with a shallow reorg every 7th block
+	// Ev: real size of the k-th Extend / Reorg step of the path (counted together, from 0): [blocks] for an Extend,
+	// [depth, new blocks] for a Reorg; a missing or empty entry = Unit based (Unit*n; Unit*d, Unit*d+Unit).
+	Ev [][]int `json:"ev,omitempty"`
+	// Gone: peers (1-based) whose Drop step is the shutdown of their node: the connection is closed and every
+	// redial is refused (a plain Drop keeps accepting, the client is back within ConnectionRetryInterval).
+	Gone []int `json:"gone,omitempty"`
 }
 
 type vncObs struct {
@@ -142,6 +148,28 @@ type vncRun struct {
 }
 
 func (r *vncRun) real(m int) int { return r.cfg.Delta + r.cfg.Unit*m }
+
+// evSize returns the configured real size of the k-th Extend / Reorg step (nil = unit based).
+func (r *vncRun) evSize(k, want int) []int {
+	if k < len(r.cfg.Ev) && len(r.cfg.Ev[k]) == want {
+		for _, v := range r.cfg.Ev[k] {
+			if v < 1 {
+				return nil
+			}
+		}
+		return r.cfg.Ev[k]
+	}
+	return nil
+}
+
+func (r *vncRun) isGone(p int) bool {
+	for _, g := range r.cfg.Gone {
+		if g == p {
+			return true
+		}
+	}
+	return false
+}
 
 func (r *vncRun) obs() vncObs {
 	s := r.cl.Sample()
@@ -467,6 +495,7 @@ func vncRunOne(in vncPathIn, outFn, scratch string) (err error) {
 
 	think := func() { time.Sleep(time.Duration(r.rng.Intn(12)) * time.Millisecond) }
 	sawDeadline := false
+	nEv := 0 // Extend / Reorg steps seen so far
 	steps := in.Steps
 	deadline := func(a vncAct) {
 		atomic.StoreInt32(&r.gate.allOpen, 1)
@@ -534,11 +563,22 @@ func vncRunOne(in vncPathIn, outFn, scratch string) (err error) {
 				a.Res = "noconn"
 			}
 		case "Drop":
-			if r.nodes[a.P-1].Drop() == 0 {
+			nd := r.nodes[a.P-1]
+			if r.isGone(a.P) {
+				// the node is shut down: connection closed, redials refused
+				if !nd.Connected() {
+					a.Res = "noconn"
+				}
+				nd.SetUp(false)
+			} else if nd.Drop() == 0 {
 				a.Res = "noconn"
 			}
 		case "Extend":
-			if k := r.cfg.Unit * a.N; r.cfg.Free >= 1 && k <= 600 {
+			sz := r.evSize(nEv, 1)
+			nEv++
+			if sz != nil {
+				r.net.Extend(sz[0])
+			} else if k := r.cfg.Unit * a.N; r.cfg.Free >= 1 && k <= 600 {
 				// blocks arrive one by one, a few ms apart
 				for i := 1; i <= k; i++ {
 					if r.cfg.Free == 2 && i%7 == 0 {
@@ -553,7 +593,13 @@ func vncRunOne(in vncPathIn, outFn, scratch string) (err error) {
 				r.net.Extend(k)
 			}
 		case "Reorg":
-			r.net.Reorg(r.cfg.Unit*a.D, r.cfg.Unit*a.D+r.cfg.Unit)
+			sz := r.evSize(nEv, 2)
+			nEv++
+			if sz != nil && sz[1] > sz[0] {
+				r.net.Reorg(sz[0], sz[1])
+			} else {
+				r.net.Reorg(r.cfg.Unit*a.D, r.cfg.Unit*a.D+r.cfg.Unit)
+			}
 		case "Settle", "Reverify":
 		case "SyncHdr", "Kick":
 			i := a.P - 1
